@@ -90,16 +90,16 @@ theorem step_ok (s : St) (a : Acc) (seen : List Nat) (op : Op) (h : Rel s a seen
   cases op with
   | look =>
     refine ⟨?_, ⟨?_, ?_, ?_, ?_, hinv'⟩⟩ <;>
-      simp_all [specStep, owedWith, vFail, vCarry, nextAcc, nextWr, idleOpen, stepOut, obsOf, isReq, isFailure, Verdict.and, seenAfter]
+      simp_all [specStep, owedWith, vFail, vSilence, vCarry, nextAcc, nextWr, idleOpen, stepOut, obsOf, isReq, isFailure, Verdict.and, seenAfter]
   | close =>
     cases proc <;>
     (refine ⟨?_, ⟨?_, ?_, ?_, ?_, hinv'⟩⟩ <;>
-      simp_all [specStep, owedWith, vFail, vCarry, nextAcc, nextWr, idleOpen, stepOut, obsOf, isReq, isFailure, Verdict.and, seenAfter, owedOf, St.close,
+      simp_all [specStep, owedWith, vFail, vSilence, vCarry, nextAcc, nextWr, idleOpen, stepOut, obsOf, isReq, isFailure, Verdict.and, seenAfter, owedOf, St.close,
         St.state])
   | openT r =>
     cases r <;> cases ores <;> cases so <;> cases cs <;> cases proc <;>
     (refine ⟨?_, ⟨?_, ?_, ?_, ?_, hinv'⟩⟩ <;>
-      simp_all [specStep, owedWith, vFail, vCarry, nextAcc, nextWr, idleOpen, stepOut, obsOf, isReq, isFailure, Verdict.and, seenAfter, owedOf, St.close,
+      simp_all [specStep, owedWith, vFail, vSilence, vCarry, nextAcc, nextWr, idleOpen, stepOut, obsOf, isReq, isFailure, Verdict.and, seenAfter, owedOf, St.close,
         St.state, St.openT, St.openImpl, St.fault, firstNotFailed])
   | io o =>
     cases proc with
@@ -108,7 +108,7 @@ theorem step_ok (s : St) (a : Acc) (seen : List Nat) (op : Op) (h : Rel s a seen
       obtain ⟨tid, tdl, ph⟩ := t
       cases o <;> cases ph <;> cases so <;> cases cs <;> cases wr <;>
       (refine ⟨?_, ⟨?_, ?_, ?_, ?_, hinv'⟩⟩ <;>
-        simp_all [specStep, owedWith, vFail, vCarry, nextAcc, nextWr, idleOpen, stepOut, obsOf, isReq, isFailure, Verdict.and, seenAfter, owedOf, St.close,
+        simp_all [specStep, owedWith, vFail, vSilence, vCarry, nextAcc, nextWr, idleOpen, stepOut, obsOf, isReq, isFailure, Verdict.and, seenAfter, owedOf, St.close,
           St.state, St.io, St.txnFail, St.fault, firstNotFailed, settle, enabled, Resp.isError])
   | timeoutHere r =>
     cases proc with
@@ -117,7 +117,7 @@ theorem step_ok (s : St) (a : Acc) (seen : List Nat) (op : Op) (h : Rel s a seen
       obtain ⟨tid, tdl, ph⟩ := t
       cases tdl <;> cases r <;> cases so <;> cases cs <;>
       (refine ⟨?_, ⟨?_, ?_, ?_, ?_, hinv'⟩⟩ <;>
-        simp_all [specStep, owedWith, vFail, vCarry, nextAcc, nextWr, idleOpen, stepOut, obsOf, isReq, isFailure, Verdict.and, seenAfter, owedOf, St.close,
+        simp_all [specStep, owedWith, vFail, vSilence, vCarry, nextAcc, nextWr, idleOpen, stepOut, obsOf, isReq, isFailure, Verdict.and, seenAfter, owedOf, St.close,
           St.state, St.timeoutHere, St.txnTimeout, St.fault, firstNotFailed, settle, enabled,
           Resp.isError])
   | req id dl =>
@@ -126,11 +126,11 @@ theorem step_ok (s : St) (a : Acc) (seen : List Nat) (op : Op) (h : Rel s a seen
     | none =>
       cases dl <;> cases so <;> cases cs <;>
       (refine ⟨?_, ⟨?_, ?_, ?_, ?_, hinv'⟩⟩ <;>
-        simp_all [specStep, owedWith, vFail, vCarry, nextAcc, nextWr, idleOpen, stepOut, obsOf, isReq, isFailure, Verdict.and, seenAfter, owedOf, St.close,
+        simp_all [specStep, owedWith, vFail, vSilence, vCarry, nextAcc, nextWr, idleOpen, stepOut, obsOf, isReq, isFailure, Verdict.and, seenAfter, owedOf, St.close,
           St.state, St.request, St.txnTimeout, St.txnFail, St.fault, firstNotFailed, settle, enabled,
           Resp.isError]) <;>
       (rename_i r; cases r <;>
-        simp_all [specStep, owedWith, vFail, vCarry, nextAcc, nextWr, idleOpen, stepOut, obsOf, isReq, isFailure, Verdict.and, seenAfter, owedOf, St.close,
+        simp_all [specStep, owedWith, vFail, vSilence, vCarry, nextAcc, nextWr, idleOpen, stepOut, obsOf, isReq, isFailure, Verdict.and, seenAfter, owedOf, St.close,
           St.state, St.request, St.txnTimeout, St.txnFail, St.fault, firstNotFailed, settle, enabled,
           Resp.isError])
     | some t =>
@@ -139,11 +139,11 @@ theorem step_ok (s : St) (a : Acc) (seen : List Nat) (op : Op) (h : Rel s a seen
         intro e; apply hfresh; rw [← e]; exact hs tid (by simp [owedOf])
       cases dl <;> cases so <;> cases cs <;>
       (refine ⟨?_, ⟨?_, ?_, ?_, ?_, hinv'⟩⟩ <;>
-        simp_all [specStep, owedWith, vFail, vCarry, nextAcc, nextWr, idleOpen, stepOut, obsOf, isReq, isFailure, Verdict.and, seenAfter, owedOf, St.close,
+        simp_all [specStep, owedWith, vFail, vSilence, vCarry, nextAcc, nextWr, idleOpen, stepOut, obsOf, isReq, isFailure, Verdict.and, seenAfter, owedOf, St.close,
           St.state, St.request, St.txnTimeout, St.txnFail, St.fault, firstNotFailed, settle, enabled,
           Resp.isError]) <;>
       (rename_i r; cases r <;>
-        simp_all [specStep, owedWith, vFail, vCarry, nextAcc, nextWr, idleOpen, stepOut, obsOf, isReq, isFailure, Verdict.and, seenAfter, owedOf, St.close,
+        simp_all [specStep, owedWith, vFail, vSilence, vCarry, nextAcc, nextWr, idleOpen, stepOut, obsOf, isReq, isFailure, Verdict.and, seenAfter, owedOf, St.close,
           St.state, St.request, St.txnTimeout, St.txnFail, St.fault, firstNotFailed, settle, enabled,
           Resp.isError])
 
